@@ -113,7 +113,7 @@ def run(ctx):
         env = vlib.go_env()
         rj = subprocess.run([exe, "-json", "./..."], cwd=root, env=env, stdout=subprocess.PIPE, stderr=subprocess.PIPE, text=True, timeout=300)
         diags, errs = proglib.parse_json_tree(rj.stdout, root)
-        if errs or rj.returncode != 0 or "panic:" in rj.stderr:
+        if errs or rj.returncode != 0 or vlib.crashed(rj.stderr):
             ctx.violation("the binary failed on %s: %s" % (prog["id"], (errs or rj.stderr)[:300]), {"kind": "program", "program": prog, "expected": [], "cats": []})
             continue
         diags = proglib.dedup(diags)
@@ -182,7 +182,7 @@ def run(ctx):
     with open(path, "w") as f:
         for e in events:
             f.write(json.dumps(e) + "\n")
-    r = ctx.tlc("DiagTrace", TCFG % (path, "AllSeen"), workers=1, label="c17_trace", allow_violation=True, timeout=900, jvm="-XX:ParallelGCThreads=2")
+    r = ctx.tlc("DiagTrace", TCFG % (path, "AllSeen"), workers=1, label="c17_trace", allow_violation=True, timeout=900, jvm="-XX:ParallelGCThreads=2 -Xmx3g")
     accepted = len(events)
     if r["violated"] == "AllSeen":
         raise vlib.ToolError("the programs did not produce all 16 codes (vacuity)")
@@ -203,7 +203,7 @@ def run(ctx):
         with open(path, "w") as f:
             for e in events:
                 f.write(json.dumps(e) + "\n")
-        r = ctx.tlc("DiagTrace", TCFG % (path, ""), workers=1, label="c17_trace_more", allow_violation=True, timeout=900, jvm="-XX:ParallelGCThreads=2", count=False)
+        r = ctx.tlc("DiagTrace", TCFG % (path, ""), workers=1, label="c17_trace_more", allow_violation=True, timeout=900, jvm="-XX:ParallelGCThreads=2 -Xmx3g", count=False)
     return ctx.finish("model_checking", {
         "traces_validated_against_impl": accepted,
         "samples": samples,
